@@ -81,7 +81,9 @@ def k_images(order):
     from productmd.images import Images
     m = Images()
     samples.set_compose(m.compose)
-    paths = ["z.iso", "a.iso", "m/b.iso", "B.iso", "0.iso"]
+    # two paths that differ only in the leading zero of a number (equal under a "natural" ordering), and one that a natural
+    # ordering would put elsewhere: the documented order is the plain one
+    paths = ["d/disc-1.iso", "d/disc-01.iso", "m/b.iso", "B.iso", "d/disc-10.iso"]
     for i in order:
         # part 2 is a unified image whose additional_variants (a caller-ordered list: content) is not in sorted order
         # part 4 is the file of part 1 published under a second path: same identity, same checksums - both records are content
@@ -161,8 +163,9 @@ def k_checksums(order):
 
 def k_image_table(order):
     t = samples.treeinfo(0)
-    t.tree.platforms = set(["x86_64", "xen"])
-    ents = [("x86_64", "boot.iso"), ("x86_64", "Kernel"), ("xen", "kernel"), ("x86_64", "initrd"), ("xen", "Initrd")]
+    # "xen-x86_64" is a platform name like any other (it merely ends in the tree's architecture): a table of its own
+    t.tree.platforms = set(["x86_64", "xen", "xen-x86_64"])
+    ents = [("x86_64", "boot.iso"), ("x86_64", "Kernel"), ("xen", "kernel"), ("xen-x86_64", "kernel"), ("xen", "Initrd")]
     for i in order:
         p, n = ents[i - 1]
         t.images.images.setdefault(p, {})[n] = "images/%s/%s" % (p, n)
@@ -361,7 +364,10 @@ def worker(orders, dumps):
             except Exception as exc:
                 fails.append("%s order %s: writing to files: %s: %s" % (kind, order, type(exc).__name__, exc))
             for t_i, t in enumerate(texts):
-                bad = caller_order(kind, order, t)
+                try:
+                    bad = caller_order(kind, order, t)
+                except ValueError as exc:
+                    bad = "dumps() returned text that is not one document (%s): %r ... %r" % (str(exc)[:80], t[:30], t[-50:])
                 if bad:
                     fails.append("%s order %s dump #%d: %s" % (kind, order, t_i + 1, bad))
                     break
@@ -376,17 +382,31 @@ def worker(orders, dumps):
                         fails.append("%s order %s: dump_for_tree(%r): %s: %s" % (kind, order, base, type(exc).__name__, exc))
                         continue
                     part = buf.getvalue()
+                    try:
+                        json.loads(part)
+                    except ValueError as exc:
+                        fails.append("%s order %s: dump_for_tree(%r) output is not one JSON document: %s" % (kind, order, base, exc))
+                        break
                     if part != json.dumps(json.loads(part), indent=4, sort_keys=True, separators=(",", ": ")):
                         fails.append("%s order %s: dump_for_tree(%r) output is not key-sorted JSON with 4-space indentation" % (kind, order, base))
                         break
             if text.lstrip().startswith("{"):
-                if text != json.dumps(json.loads(text), indent=4, sort_keys=True, separators=(",", ": ")):
+                try:
+                    canon = json.dumps(json.loads(text), indent=4, sort_keys=True, separators=(",", ": "))
+                except ValueError as exc:
+                    canon = None
+                    fails.append("%s order %s: dumps() returned text that is not one JSON document (%s): %r ... %r" % (kind, order, exc, text[:40], text[-60:]))
+                if canon is not None and text != canon:
                     fails.append("%s order %s: JSON output is not key-sorted with 4-space indentation" % (kind, order))
             else:
                 import configparser
                 cp = configparser.RawConfigParser()
                 cp.optionxform = str
-                cp.read_string(text)
+                try:
+                    cp.read_string(text)
+                except configparser.Error as exc:
+                    fails.append("%s order %s: dumps() returned text that is not one INI document: %s" % (kind, order, str(exc)[:200]))
+                    continue
                 secs = cp.sections()
                 if secs != sorted(secs):
                     fails.append("%s order %s: treeinfo sections not sorted: %s" % (kind, order, secs))
